@@ -12,7 +12,7 @@ import numpy as np
 from . import core
 from .core import HarnessError
 from .fsseam import FsSeam
-from .ramses import GHOST_TAG, VALBASE, World, code_factor, family_of, physical
+from .ramses import BOUND_TAG, GHOST_TAG, VALBASE, World, code_factor, family_of, physical, value_sign
 
 HYDRO_POOLS = [
     ["density", "velocity_x", "velocity_y", "velocity_z", "pressure"],
@@ -346,7 +346,7 @@ def compare_full(ds, world, lmax=None, expect_rows=None, raw_names=None, derived
         for comp, raw in zip(comps, raws):
             kind, iv = var_kind[raw]
             fam = family_of(raw)
-            code = (KIND_IV0[kind] + iv + 1) * VALBASE + gids
+            code = ((KIND_IV0[kind] + iv + 1) * VALBASE + gids) * np.array([value_sign(raw, int(g)) for g in gids])
             want = code * code_factor(fam, ud, ul, ut)
             try:
                 obs = physical(comp.values, comp.unit, fam)
@@ -363,7 +363,7 @@ def compare_full(ds, world, lmax=None, expect_rows=None, raw_names=None, derived
                 frac = rcode - math.floor(rcode)
                 if abs(frac - GHOST_TAG) < 1e-6:
                     cls = ("values", "ghost-copy")
-                elif rcode < 0:
+                elif abs(frac - BOUND_TAG) < 1e-6:
                     cls = ("values", "boundary-copy")
                 elif abs(rcode - round(rcode)) < 1e-6 and abs(want[i] / obs[i] - 1) > 1e-6:
                     cls = ("values", "wrong-cell-or-variable")
